@@ -205,7 +205,14 @@ fn run_real(files: &[(String, String)]) -> Observed {
 }
 
 fn run_real_defs(files: &[(String, String)], defs: &[(String, String)]) -> Observed {
-    run_real_full(files, defs).0
+    // (symbolic streams) a hand-over to the parser that is not the selected text is reported like a panic: `judge`
+    // turns it into a FAIL whatever the expectation is
+    let (o, flat) = run_real_full(files, defs);
+    if flat.iter().any(|t| t == PREPARE_DIFFERS) {
+        Observed::Panic("prepare_tokens hands the parser something else than the selected text".into())
+    } else {
+        o
+    }
 }
 
 /// observation + the flat list of token spellings that reached the output
@@ -1267,6 +1274,15 @@ fn random_runs(r: &mut Rng, n: u64, out: &mut Out, st: &mut Stats) {
 
 fn random_raw(r: &mut Rng, n: u64, n_cond: u64, n_deep: u64, n_reinc: u64, out: &mut Out, st: &mut Stats) {
     let mut kinds = Hist::default();
+    // programs of which nothing is selected (empty output), through both entry points
+    for i in 0..(n / 20) {
+        let case = rawgen::G::new(r, &mut kinds).empty_case();
+        if i % 3 == 0 && case.files.len() == 1 {
+            do_request(&rawgen::request_of_frag(&case), out, st);
+        } else {
+            do_request(&rawgen::request_of(&case), out, st);
+        }
+    }
     // the second entry point: `preprocess_fragment`
     for _ in 0..(n / 8) {
         let case = rawgen::G::new(r, &mut kinds).frag_case();
